@@ -23,6 +23,7 @@ func init() {
 			"(R6) at every wire position where both sides resolve a message field, it is the same field (a swap of two same-typed fields is caught); " +
 			"(R7) a writer sends a constant in place of a field value only on a path that observed that field absent (nil / zero / failed type assertion of a value read from the message), never by consulting other state; " +
 			"(R8) a reader-side guard comparing a wire count with the bytes that remain admits count == remaining (an empty collection written last is valid writer output). " +
+			"(R9) the codec's pooled Reader/Writer: every state field written by the read/write methods (cursor, sticky error, buffer length) is reset on every path between release and Put or between Get and hand-out, and no function that releases a pooled writer returns (or stores into a field) a slice of that writer's buffer — an encoding must be copied out before its buffer goes back to the pool. " +
 			"NOT decided: value-level equality (nil vs empty map, zero time, presence-flag values), user-registered types outside the module.",
 		Assumptions: []string{"success paths: error edges (err != nil on an error-typed value) and returns of constructed errors are pruned"},
 		Rules: []Rule{
@@ -33,6 +34,7 @@ func init() {
 			{ID: "C12.R5", Min: 7, Desc: "no lossy conversion on the writer side", Fn: c12Lossy},
 			{ID: "C12.R6", Min: 12, Desc: "positional field correspondence", Fn: c12Positions},
 			{ID: "C12.R7", Min: 3, Desc: "no constant substituted for a present field", Fn: c12Substitution},
+			{ID: "C12.R9", Min: 5, Desc: "pooled readers/writers start clean and their buffers do not outlive the release", Fn: c12Pools},
 			{ID: "C12.R8", Min: 2, Desc: "remaining-size guards admit the boundary count", Fn: c12Boundary},
 		},
 	})
@@ -938,6 +940,216 @@ func unconv(v ssa.Value) ssa.Value {
 		default:
 			return v
 		}
+	}
+}
+
+// c12Pools: see the explanation (R9).
+func c12Pools(p *Program, r *Report) {
+	c := p.codec()
+	n := 0
+	for _, T := range []*types.Named{c.ReaderT, c.WriterT} {
+		if T == nil {
+			continue
+		}
+		var acquire, release *ssa.Function
+		pkgFns := []*ssa.Function{}
+		for _, fn := range p.Mod {
+			if fnPkg(fn) == T.Obj().Pkg() && fn.Parent() == nil {
+				pkgFns = append(pkgFns, fn)
+			}
+		}
+		for _, fn := range pkgFns {
+			for _, b := range fn.Blocks {
+				for _, in := range b.Instrs {
+					cc := callOf(in)
+					if cc == nil {
+						continue
+					}
+					switch calleeQual(cc) {
+					case "(sync.Pool).Get":
+						if res := fn.Signature.Results(); res.Len() == 1 && namedOf(res.At(0).Type()) == T {
+							acquire = fn
+						}
+					case "(sync.Pool).Put":
+						if len(fn.Params) == 1 && namedOf(fn.Params[0].Type()) == T {
+							release = fn
+						}
+					}
+				}
+			}
+		}
+		if acquire == nil || release == nil {
+			r.Unresolved("pool acquire / release function of " + T.Obj().Name())
+			continue
+		}
+		// state fields: written by methods of T other than Reset-style whole-object resets (methods storing >= 2 fields
+		// from constants only are resets) — simply: fields stored in some method that also reads input/appends output.
+		st := T.Underlying().(*types.Struct)
+		fields := map[*types.Var]bool{}
+		for i := 0; i < st.NumFields(); i++ {
+			fields[st.Field(i)] = true
+		}
+		state := map[*types.Var]bool{}
+		for _, a := range p.fieldAccesses(fields) {
+			if !a.Write || a.Fresh {
+				continue
+			}
+			root := a.Fn
+			for root.Parent() != nil {
+				root = root.Parent()
+			}
+			if root == acquire || root == release || root.Signature.Recv() == nil {
+				continue
+			}
+			// a method whose parameters all are plain data setters (Reset(data), SetOrder) is not a read/write method: require
+			// that the method's name starts with Read/Write/read/write or is the bounds check / capacity helper
+			nm := strings.ToLower(root.Name())
+			if strings.HasPrefix(nm, "read") || strings.HasPrefix(nm, "write") || nm == "check" || nm == "skip" || nm == "seek" || nm == "ensurecapacity" {
+				state[a.Field] = true
+			}
+		}
+		ag, rg := p.igx(acquire), p.igx(release)
+		storesOf := func(g *IG, f *types.Var) map[int]bool {
+			return nodesWhere(g, func(in ssa.Instruction) bool {
+				s, ok := in.(*ssa.Store)
+				if !ok {
+					return false
+				}
+				x, _ := fieldAddr(s.Addr)
+				return x == f
+			})
+		}
+		puts := nodesWhere(rg, func(in ssa.Instruction) bool {
+			cc := callOf(in)
+			return cc != nil && calleeQual(cc) == "(sync.Pool).Put"
+		})
+		var names []string
+		for f := range state {
+			names = append(names, f.Name())
+		}
+		sort.Strings(names)
+		for _, nm := range names {
+			f := fieldVar(T, nm)
+			n++
+			inRelease := len(puts) > 0 && len(storesOf(rg, f)) > 0
+			for pn := range puts {
+				if !rg.DominatedByNodes(pn, storesOf(rg, f)) {
+					inRelease = false
+				}
+			}
+			inAcquire := len(storesOf(ag, f)) > 0 && !anyIn(ag.Reach(ag.entry(), storesOf(ag, f), nil), ag.Exits)
+			r.Check(inRelease || inAcquire, fmt.Sprintf("pooled %s: %s reset between uses", T.Obj().Name(), nm), release.Pos(),
+				"the field is stored on every path before the object is put back, or on every path before a pooled object is handed out: the next user never sees the previous user's cursor / sticky error / contents")
+		}
+	}
+	// buffers of a pooled writer do not outlive the release
+	if c.WriterT != nil {
+		var releaseW *ssa.Function
+		for _, fn := range p.Mod {
+			if fnPkg(fn) == c.WriterT.Obj().Pkg() && len(fn.Params) == 1 && namedOf(fn.Params[0].Type()) == c.WriterT && fn.Parent() == nil {
+				for _, b := range fn.Blocks {
+					for _, in := range b.Instrs {
+						if cc := callOf(in); cc != nil && calleeQual(cc) == "(sync.Pool).Put" {
+							releaseW = fn
+						}
+					}
+				}
+			}
+		}
+		for _, fn := range p.Mod {
+			if releaseW == nil || len(fn.Blocks) == 0 {
+				continue
+			}
+			var released []ssa.Value
+			for _, b := range fn.Blocks {
+				for _, in := range b.Instrs {
+					if cc := callOf(in); cc != nil && cc.StaticCallee() == releaseW && len(cc.Args) == 1 {
+						released = append(released, strip(cc.Args[0]))
+					}
+				}
+			}
+			if len(released) == 0 {
+				continue
+			}
+			aliases := func(v ssa.Value) bool {
+				seen := map[ssa.Value]bool{}
+				var rec func(v ssa.Value, d int) bool
+				rec = func(v ssa.Value, d int) bool {
+					if v == nil || seen[v] || d > 8 {
+						return false
+					}
+					seen[v] = true
+					switch x := v.(type) {
+					case *ssa.Slice:
+						return rec(x.X, d+1)
+					case *ssa.Phi:
+						for _, e := range x.Edges {
+							if rec(e, d+1) {
+								return true
+							}
+						}
+					case *ssa.Call:
+						if y := x.Call.StaticCallee(); y != nil && y.Signature.Recv() != nil && namedOf(y.Signature.Recv().Type()) == c.WriterT && len(x.Call.Args) > 0 {
+							if _, isSl := x.Type().Underlying().(*types.Slice); isSl {
+								for _, w := range released {
+									if strip(x.Call.Args[0]) == w {
+										return true
+									}
+								}
+							}
+						}
+					case *ssa.UnOp:
+						if x.Op == token.MUL {
+							if f, base := fieldAddr(x.X); f != nil && ownerName(f) == c.WriterT.Obj().Name() {
+								for _, w := range released {
+									if strip(base) == w {
+										if _, isSl := x.Type().Underlying().(*types.Slice); isSl {
+											return true
+										}
+									}
+								}
+							}
+						}
+					}
+					return false
+				}
+				return rec(v, 0)
+			}
+			okRet, nRet := true, 0
+			badPos := fn.Pos()
+			for _, b := range fn.Blocks {
+				for _, in := range b.Instrs {
+					switch x := in.(type) {
+					case *ssa.Return:
+						for k := range x.Results {
+							if _, isSl := x.Results[k].Type().Underlying().(*types.Slice); !isSl {
+								continue
+							}
+							nRet++
+							if aliases(retOperand(x, k)) {
+								okRet = false
+								badPos = x.Pos()
+							}
+						}
+					case *ssa.Store:
+						if _, isSl := x.Val.Type().Underlying().(*types.Slice); isSl {
+							if f, _ := fieldAddr(x.Addr); f != nil && ownerName(f) != c.WriterT.Obj().Name() && aliases(x.Val) {
+								n++
+								r.Violate(fmt.Sprintf("%s stores bytes of a released pooled writer into %s.%s", fnName(fn), ownerName(f), f.Name()), x.Pos(), "a view of the pooled buffer outlives the release")
+							}
+						}
+					}
+				}
+			}
+			if nRet > 0 {
+				n++
+				r.Check(okRet, fnName(fn)+" does not return bytes of the pooled writer it releases", badPos,
+					fmt.Sprintf("none of its %d slice-typed return operands is a view of the buffer of a writer this function releases to the pool: the bytes are copied out first", nRet))
+			}
+		}
+	}
+	if n == 0 {
+		r.Unresolved("pooled codec objects")
 	}
 }
 
